@@ -35,3 +35,7 @@ func VerifSetNNSCheck(f func(domain, record string) error) {
 		return []any{f(a[0].(string), a[1].(string))}, true
 	}
 }
+
+// VerifExpireIndexerCache makes the next membership query refresh the lists, exactly like the cache
+// timeout elapsing or restartFSChain do (innerRingIndexer.reset).
+func (s *Server) VerifExpireIndexerCache() { s.statusIndex.reset() }
